@@ -84,7 +84,10 @@ def run_job(job, rep):
                 p = trace_functions(lambda: cls.to_knx(v), rep) if len(rep.functions) < 350 and not rep.extra.get(name) else cls.to_knx(v)
             except ConversionError as e:
                 return ("rejected", e)
-            back = cls.from_knx(p) if cls.dpt_main_number != 14 else None     # DPT 14 display rounding is outside the exact model
+            try:
+                back = cls.from_knx(p) if cls.dpt_main_number != 14 else None     # DPT 14 display rounding is outside the exact model
+            except ConversionError as e:
+                return ("undecodable", p, e)
             return ("accepted", p, back)
 
         def judge(pr):
@@ -101,6 +104,9 @@ def run_job(job, rep):
                 inr = core.sym_and(v >= vmin, v <= vmax)
             else:
                 inr = core.sym_and(v >= math.ceil(vmin) if vmin != -math.inf else True, v <= math.floor(vmax) if vmax != math.inf else True)
+            if pr.value[0] == "undecodable":
+                rep.reach["accepted"] += 1
+                rep.ob("refuted", f"encoded-but-undecodable:{name}", case, f"to_knx accepted the value, from_knx rejects the payload it produced: {pr.value[2]!r}"); return
             if pr.value[0] == "rejected":
                 rep.reach["rejected"] += 1
                 st, mm = c.prove(core.sym_not(inr))
@@ -155,7 +161,10 @@ def replay(case):
         return True, f"payload shape {p!r}"
     if cls.dpt_main_number == 14:
         return False, "ok"
-    back = cls.from_knx(p)
+    try:
+        back = cls.from_knx(p)
+    except ConversionError as e:
+        return True, f"{cls.__name__}.to_knx({v}) = {p!r}, which {cls.__name__}.from_knx rejects: {e}"
     step = float(cls.resolution)
     if cls.dpt_main_number == 9:
         step *= 1 << ((p.value[0] >> 3) & 0x0F)
